@@ -170,7 +170,7 @@ Ltac break_match H :=
 (** [step_cases H Hpc]: H : step E R s a = Some (s', es); one goal per branch of the step function,
     with s' and es substituted *)
 Ltac step_cases H t :=
-  unfold step in H; cbv zeta in H;
+  unfold step, step_gen in H; cbv beta iota zeta in H;
   match type of H with
   | match ?a with Start _ _ => _ | Step _ => _ end = _ => destruct a as [t ?o|t]
   end;
@@ -230,7 +230,8 @@ Section LayerA.
     | P7 t n | P10 _ t n => In t (g_nodes st) /\ nnext st t = n /\ n <> 0
     | D2 h | D3 h _ | D4 h | D5 h => in_old st h
     | D6 h => in_old st h /\ E + 1 <= pd st h
-    | D7 h nx => in_old st h /\ E + 1 <= pd st h /\ nnext st h = nx /\ nx <> 0
+    | D6t h nx => in_old st h /\ E + 1 <= pd st h /\ nnext st h = nx /\ nx <> 0
+    | D7 h nx => in_old st h /\ E + 1 <= pd st h /\ nnext st h = nx /\ nx <> 0 /\ tail st <> h
     | D9 h _ _ | D10 h _ _ | D11 h _ => In h (g_nodes st)
     | _ => True
     end.
@@ -244,6 +245,7 @@ Section LayerA.
     a_al : forall n, In n (g_nodes st) -> al (pushi st n) /\ al (popi st n);
     a_full : forall n, In n (g_nodes st) -> nnext st n <> 0 -> E + 1 <= pa st n;
     a_ret : forall n, In n (g_retired st) -> E + 1 <= pd st n;
+    a_tnr : ~ In (tail st) (g_retired st);
     a_thr : forall t, TA st (th st t);
     a_priv : forall t1 t2 n, priv (th st t1) = Some n -> priv (th st t2) = Some n -> t1 = t2
   }.
@@ -258,10 +260,11 @@ Section LayerA.
     (forall n, priv q = Some n -> fresh_node st n ->
        fresh_node st' n /\ popi st' n = popi st n /\ pushi st' n = pushi st n /\ nnext st' n = nnext st n /\
        forall j, ent st' n j = ent st n j) ->
+    (forall h, in_old st h -> tail st <> h -> tail st' <> h) ->
     (forall h, in_old st h -> In h (g_nodes st)) ->
     TA st q -> TA st' q.
   Proof using HE HM.
-    intros Hin Hcnt Hold Hnx Htl Hpr Hio H.
+    intros Hin Hcnt Hold Hnx Htl Hpr Htne Hio H.
     assert (Hz : forall n, In n (g_nodes st) -> nnext st' n = 0 -> nnext st n = 0).
     { intros n Hn Hz. destruct (N.eq_dec (nnext st n) 0) as [e|e]; [exact e|]. rewrite (Hnx n Hn e) in Hz. contradiction. }
     destruct q; cbn [TA] in *; try exact I.
@@ -294,8 +297,11 @@ Section LayerA.
     - (* P10 *) destruct H as (H1 & H2 & H3). split; [apply Hin; exact H1|]. split; [|exact H3].
       rewrite Hnx; [exact H2|exact H1|congruence].
     - (* D6 *) destruct H as [H1 H2]. split; [apply Hold; exact H1|]. specialize (Hcnt _ (Hio _ H1)). lia.
-    - (* D7 *) destruct H as (H1 & H2 & H3 & H4). split; [apply Hold; exact H1|].
+    - (* D6t *) destruct H as (H1 & H2 & H3 & H4). split; [apply Hold; exact H1|].
       split; [specialize (Hcnt _ (Hio _ H1)); lia|]. split; [|exact H4].
+      rewrite Hnx; [exact H3|apply Hio; exact H1|congruence].
+    - (* D7 *) destruct H as (H1 & H2 & H3 & H4 & H5). split; [apply Hold; exact H1|].
+      split; [specialize (Hcnt _ (Hio _ H1)); lia|]. split; [|split; [exact H4|apply Htne; assumption]].
       rewrite Hnx; [exact H3|apply Hio; exact H1|congruence].
   Qed.
 
@@ -353,6 +359,7 @@ Section LayerA.
     | |- incl _ _ => first [apply incl_refl | apply incl_appl; apply incl_refl]
     | |- forall n, In n _ -> pa _ _ <= pa _ _ /\ pd _ _ <= pd _ _ => intros; unfold pa, pd; prj; split; apply N.le_refl
     | |- forall h, in_old _ h -> in_old _ h => intros ? ?; assumption
+    | |- forall h, in_old _ h -> tail _ <> h -> tail _ <> h => intros ? ? ?; assumption
     | |- forall n, In n _ -> _ <> 0 -> _ = _ => intros; reflexivity
     | |- forall n, In n _ -> _ = 0 -> _ = n -> _ = n => intros; assumption
     | |- forall n, priv _ = Some n -> fresh_node _ n -> _ => intros ? ? ?; unfold fresh_node in *; prj; repeat split; first [tauto | lia | reflexivity | (intros; reflexivity)]
@@ -403,17 +410,40 @@ Section LayerA.
       inversion Hp as [|a b r Ha Hab Hr]; subst. rewrite He. reflexivity.
   Qed.
 
+  (** the successor of the tail is younger than every retired node and the head, as long as the tail itself is not retired *)
+  Lemma tail_succ_young st n :
+    lpath (nnext st) (g_nodes st) -> NoDup (g_nodes st) ->
+    (exists rest, g_nodes st = g_retired st ++ head st :: rest /\ forall n, In n rest -> popi st n = 0) ->
+    (exists l0, g_nodes st = l0 ++ [tail st] \/ exists x, g_nodes st = l0 ++ [tail st; x]) ->
+    ~ In (tail st) (g_retired st) ->
+    nnext st (tail st) = n -> n <> 0 -> forall h, in_old st h -> n <> h.
+  Proof using HE HM.
+    intros Hp Hnd (rest & He & _) Htl Htnr Hn Hz h Hh Heq. subst h.
+    destruct (tail_lag st n Hp Htl Hn Hz) as [l0 El].
+    apply (old_not_rest st rest n Hnd He Hh).
+    assert (Hin : In (tail st) (head st :: rest)).
+    { assert (Hi : In (tail st) (g_nodes st)) by (rewrite El; apply in_or_app; right; left; reflexivity).
+      rewrite He in Hi. apply in_app_or in Hi. destruct Hi as [Hi|Hi]; [contradiction|exact Hi]. }
+    rewrite He in Hnd, El. destruct Hin as [Hh0|Hr].
+    - rewrite Hh0 in El, Hnd. apply app_inj_nodup in El; [|exact Hnd]. destruct El as [_ ->]. left; reflexivity.
+    - apply in_split in Hr. destruct Hr as (r1 & r2 & ->).
+      replace (g_retired st ++ head st :: r1 ++ tail st :: r2) with ((g_retired st ++ head st :: r1) ++ tail st :: r2) in *
+        by (rewrite <- app_assoc; reflexivity).
+      apply app_inj_nodup in El; [|exact Hnd]. destruct El as [_ ->].
+      apply in_or_app. right. right. left. reflexivity.
+  Qed.
+
   Lemma InvA_step s a s' es : InvA s -> step E R s a = Some (s', es) -> g_ovf s' = false -> InvA s'.
   Proof using HE HM.
     intros HI H. step_cases H t.
-    all: intros Hov; pose proof HI as [Hpath Hnd Hlt Hhead Htail Hal Hfull Hret Hthr Hpriv]; pose proof (Hthr t) as Ht;
+    all: intros Hov; pose proof HI as [Hpath Hnd Hlt Hhead Htail Hal Hfull Hret Htnr Hthr Hpriv]; pose proof (Hthr t) as Ht;
       match goal with Hpc : th _ _ = _ |- _ => rewrite Hpc in Ht; cbn [TA] in Ht; unfold fresh_node in Ht end.
     all: hb.
     all: prj_in Hov; try (apply orb_false_ovf in Hov; destruct Hov as [Hov Hw]; rewrite Hw in * ).
     all: constructor; prj; try assumption.
     all: try (apply priv_upd; [exact Hpriv|];
               match goal with Hpc : th _ _ = _ |- _ => rewrite Hpc; cbn [priv]; first [left; reflexivity | right; left; reflexivity] end).
-    all: try (apply threads_upd; [intros t' Hne; first [exact (Hthr t') | refine (TA_frame s _ _ _ _ _ _ _ _ (fun h => old_in_nodes s h Hhead) (Hthr t')); frame_side] | cbn [TA]; prj; try exact I; try assumption; try tauto]).
+    all: try (apply threads_upd; [intros t' Hne; first [exact (Hthr t') | refine (TA_frame s _ _ _ _ _ _ _ _ _ (fun h => old_in_nodes s h Hhead) (Hthr t')); frame_side] | cbn [TA]; prj; try exact I; try assumption; try tauto]).
     (* generic goal shapes *)
     all: try match goal with
       | |- forall n, In n (g_nodes _) -> n < nalloc _ + 1 => intros n0 Hn0; specialize (Hlt n0 Hn0); lia
@@ -491,11 +521,19 @@ Section LayerA.
     - (* P6 lost *) unfold fresh_node; prj. tauto.
     - (* P7 tail *) destruct Ht as (H1 & H2 & H3). subst t0.
       destruct (tail_lag s n Hpath Htail H2 H3) as [l0 El]. exists (l0 ++ [tail s]). left. rewrite El, <- app_assoc. reflexivity.
+    - destruct Ht as (H1 & H2 & H3). subst t0. intros Hc.
+      apply (tail_succ_young s n Hpath Hnd Hhead Htail Htnr H2 H3 n); [apply in_or_app; left; exact Hc|reflexivity].
     - destruct Ht as (H1 & H2 & H3). intros n0 Hn0 Hz0 He. congruence.
+    - destruct Ht as (H1 & H2 & H3). subst t0. prj. intros h0 Hh0 _.
+      exact (tail_succ_young s n Hpath Hnd Hhead Htail Htnr H2 H3 h0 Hh0).
     - (* P6a *) unfold fresh_node; prj. rewrite setf_same. tauto.
     - (* P10 tail *) destruct Ht as (H1 & H2 & H3). subst t0.
       destruct (tail_lag s nx Hpath Htail H2 H3) as [l0 El]. exists (l0 ++ [tail s]). left. rewrite El, <- app_assoc. reflexivity.
+    - destruct Ht as (H1 & H2 & H3). subst t0. intros Hc.
+      apply (tail_succ_young s nx Hpath Hnd Hhead Htail Htnr H2 H3 nx); [apply in_or_app; left; exact Hc|reflexivity].
     - destruct Ht as (H1 & H2 & H3). intros n0 Hn0 Hz0 He. congruence.
+    - destruct Ht as (H1 & H2 & H3). subst t0. prj. intros h0 Hh0 _.
+      exact (tail_succ_young s nx Hpath Hnd Hhead Htail Htnr H2 H3 h0 Hh0).
     - (* D1 *) unfold in_old; prj. apply in_or_app. right. left. reflexivity.
     - destruct Hhead as (rest & He & Hr). exists rest. split; [exact He|]. intros n0 Hn0.
       rewrite setf_other; [apply Hr; exact Hn0|]. intros ->. exact (old_not_rest s rest h Hnd He Ht Hn0).
@@ -508,13 +546,24 @@ Section LayerA.
       rewrite setf_other; [apply Hr; exact Hn0|]. intros ->. exact (old_not_rest s rest h Hnd He Ht Hn0).
     - pose proof (old_in_nodes s h Hhead Ht). priv_frame Hpriv Hne.
     - exact (old_in_nodes s h Hhead Ht).
-    - (* D7 head *) destruct Ht as (H1 & H2 & H3 & H4). subst h.
+    - (* D6t tail *) destruct Ht as (H1 & H2 & H3 & H4). subst h.
+      destruct (tail_lag s nx Hpath Htail H3 H4) as [l0 El]. exists (l0 ++ [tail s]). left. rewrite El, <- app_assoc. reflexivity.
+    - destruct Ht as (H1 & H2 & H3 & H4). subst h. intros Hc.
+      apply (tail_succ_young s nx Hpath Hnd Hhead Htail Htnr H3 H4 nx); [apply in_or_app; left; exact Hc|reflexivity].
+    - destruct Ht as (H1 & H2 & H3 & H4). intros n0 Hn0 Hz0 He. congruence.
+    - destruct Ht as (H1 & H2 & H3 & H4). subst h. prj. intros h0 Hh0 _.
+      exact (tail_succ_young s nx Hpath Hnd Hhead Htail Htnr H3 H4 h0 Hh0).
+    - destruct Ht as (H1 & H2 & H3 & H4). subst h. repeat split; try assumption.
+      exact (tail_succ_young s nx Hpath Hnd Hhead Htail Htnr H3 H4 _ H1).
+    - (* D7 head *) destruct Ht as (H1 & H2 & H3 & H4 & H5). subst h.
       destruct Hhead as (rest & He & Hr). pose proof Hpath as Hp2. rewrite He in Hp2.
       apply MsqInv.lpath_suffix in Hp2; [|discriminate].
       destruct (MsqInv.lpath_hd_next _ _ _ Hp2 ltac:(congruence)) as [r' Er]. subst rest.
       exists r'. split; [rewrite He, <- app_assoc, H3; reflexivity|]. intros n0 Hn0. apply Hr. right. exact Hn0.
-    - destruct Ht as (H1 & H2 & H3 & H4). intros n0 Hn0. apply in_app_or in Hn0.
+    - destruct Ht as (H1 & H2 & H3 & H4 & H5). intros n0 Hn0. apply in_app_or in Hn0.
       destruct Hn0 as [Hn0|[<-|[]]]; [apply Hret; exact Hn0|exact H2].
+    - destruct Ht as (H1 & H2 & H3 & H4 & H5). intros Hc. apply in_app_or in Hc.
+      destruct Hc as [Hc|[Hc|[]]]; [exact (Htnr Hc)|exact (H5 (eq_sym Hc))].
     - intros h0 Hh0. unfold in_old in *; prj. subst h. apply in_or_app. left. exact Hh0.
   Qed.
 
@@ -529,6 +578,7 @@ Section LayerA.
     - intros n _. split; apply aligned_0.
     - intros n _ Hc. exfalso. apply Hc. reflexivity.
     - intros n [].
+    - intros [].
     - intros t. exact I.
     - intros t1 t2 n Hc. discriminate Hc.
   Qed.
